@@ -2297,7 +2297,8 @@ func normalizeHost(host string) string {
 		return strings.Trim(host, "[]")
 	}
 	if h, _, err := net.SplitHostPort(host); err == nil {
-		return h
+		// "example.com.:8080": the trailing dot sits before the port.
+		return strings.TrimSuffix(h, ".")
 	}
 	return host
 }
